@@ -79,9 +79,9 @@ def emit(insts):
         src = "au::Meters"
         dst = "decltype(au::Meters{} * %s)" % reps.mag_expr(i["d"], i["n"])  # unit_ratio(src,dst) = n/d
         if reps.is_int(i["rep"]):
-            body.append('  { static const ConvSpec sp = {"%s", %dull, %dull, %d, %s, %s}; IntConv<%s, %s, %s, %s> c(sp); c.run(); }'
+            body.append('  { static const ConvSpec sp = {"%s", %dull, %dull, %d, %s, %s, %du, %du}; IntConv<%s, %s, %s, %s> c(sp); c.run(); }'
                         % (i["id"], i["n"], i["d"], reps.conv_category(i["n"], i["d"]), "true" if i.get("canary") else "false",
-                           "true" if i.get("all32") else "false", i["rep"], src, dst, "true" if i.get("permit") else "false"))
+                           "true" if i.get("all32") else "false", i.get("slice", 0), i.get("nslices", 0), i["rep"], src, dst, "true" if i.get("permit") else "false"))
         else:
             f = Fraction(i["n"], i["d"])
             body.append('  { FloatConv<%s, %s, %s> c("%s", %d.0L / %d.0L, %s); c.run(); }'
@@ -165,11 +165,15 @@ def run(ctx, which):
                   extra_args=(["--thorough"] if not ctx.quick() else []))
     if not ctx.quick():
         # spread the exhaustive sweeps: one per shard
+        # every shard process sweeps 1/nsh of the 2^32 values of EVERY heavy instance (balanced: no shard is a long tail)
         heavy = [i for i in insts if i.get("all32")]
         for s in shards:
             s[:] = [i for i in s if not i.get("all32")]
-        for k, i in enumerate(heavy):
-            shards[k % nsh].append(i)
+        insts = [i for i in insts if not i.get("all32")]
+        for i in heavy:
+            for k in range(nsh):
+                part = dict(i, id="%sp%02d" % (i["id"], k), slice=k, nslices=nsh)
+                shards[k].append(part); insts.append(part)
     vr.run([("s%02d" % k, emit(s), [i["id"] for i in s]) for k, s in enumerate(shards) if s], timeout=4 * 3600)
     by_id = {i["id"]: i for i in insts + canaries}
     # --- compile errors: a conversion the model says compiles must compile
@@ -244,9 +248,9 @@ def run(ctx, which):
             ctx.count(s["evals"]); ctx.add_nontrivial_count(s["nt"])
             ctx.bump("float_in_band", h.get("in_band", 0)); ctx.bump("float_instances")
         ctx.bump("instances_" + i["rep"].replace(" ", "_"))
-        if len(ctx.cov["samples"]) < 8 and (int(s["inst"][1:]) % 17 == 3 or len(ctx.cov["samples"]) < 2):
+        if len(ctx.cov["samples"]) < 8 and (int(s["inst"][1:].split("p")[0]) % 17 == 3 or len(ctx.cov["samples"]) < 2):
             ctx.sample({"rep": i["rep"], "N": str(i["n"]), "D": str(i["d"]), "evals": s["evals"], "hist": h})
-    ctx.cov["exhaustive_instances"] = n_ex
+    ctx.cov["exhaustive_instances"] = n_ex          # thorough: each 2^32 sweep is reported as 16 slice records
     ctx.cov["instances"] = len(vr.stats) - 2
     ctx.cov["compile_s_total"] = round(vr.total_compile_s, 1)
 
